@@ -738,13 +738,15 @@ pub fn sheet_name() -> impl Strategy<Value = String> {
 }
 
 pub fn defined_name() -> impl Strategy<Value = String> {
-    prop_oneof![8 => Just("nm1".to_string()), 2 => Just("nm2".to_string()), 1 => Just("Rate".to_string())]
+    prop_oneof![8 => Just("alpha".to_string()), 2 => Just("bravo".to_string()), 1 => Just("Rate".to_string())]
 }
 
-pub fn name_formula() -> impl Strategy<Value = String> {
+/// `ranges`: include range-valued names (a formula using one spills; off in the restricted
+/// profiles, see the listed evaluation-order finding)
+pub fn name_formula(ranges: bool) -> impl Strategy<Value = String> {
     prop_oneof![
         4 => Just("Sheet1!$A$1".to_string()),
-        3 => Just("Sheet1!$A$1:$B$3".to_string()),
+        3 => if ranges { Just("Sheet1!$A$1:$B$3".to_string()) } else { Just("Sheet1!$B$2".to_string()) },
         1 => Just("Sheet2!$C$2".to_string()),
         1 => Just("$B$2".to_string()),
         1 => Just("'New name'!$A$1".to_string()),
@@ -911,8 +913,8 @@ pub fn recording_op(profile: Profile) -> BoxedStrategy<Op> {
     // and scope changes (global <-> sheet 0 <-> sheet 1) are common
     let scope = || prop_oneof![3 => Just(None), 2 => Just(Some(0u8)), 1 => Just(Some(1u8))];
     let names = prop_oneof![
-        3 => (defined_name(), scope(), name_formula()).prop_map(|(name, scope, formula)| Op::NameNew { name, scope, formula }),
-        3 => (defined_name(), scope(), defined_name(), scope(), name_formula()).prop_map(
+        3 => (defined_name(), scope(), name_formula(full)).prop_map(|(name, scope, formula)| Op::NameNew { name, scope, formula }),
+        3 => (defined_name(), scope(), defined_name(), scope(), name_formula(full)).prop_map(
             |(name, scope, new_name, new_scope, formula)| Op::NameUpdate { name, scope, new_name, new_scope, formula }
         ),
         2 => (defined_name(), scope()).prop_map(|(name, scope)| Op::NameDelete { name, scope }),
@@ -1015,10 +1017,10 @@ pub fn rich_setup(profile: Profile) -> Vec<Op> {
         inp(1, 1, 1, "=Sheet1!A1+1"),
     ];
     if profile != Profile::Structural {
-        v.push(Op::NameNew { name: "nm1".into(), scope: None, formula: "Sheet1!$A$1".into() });
-        v.push(Op::NameNew { name: "nm1".into(), scope: Some(1), formula: "Sheet1!$A$1:$B$3".into() });
-        v.push(Op::NameNew { name: "nm2".into(), scope: Some(0), formula: "Sheet2!$C$2".into() });
-        v.push(inp(0, 4, 4, "=nm1+1"));
+        v.push(Op::NameNew { name: "alpha".into(), scope: None, formula: "Sheet1!$A$1".into() });
+        v.push(Op::NameNew { name: "alpha".into(), scope: Some(1), formula: "Sheet1!$B$2".into() });
+        v.push(Op::NameNew { name: "bravo".into(), scope: Some(0), formula: "Sheet2!$C$2".into() });
+        v.push(inp(0, 4, 4, "=alpha+1"));
         v.push(Op::NamedStyleCreate {
             name: "MyStyle".into(),
             style: Box::new({
@@ -1066,6 +1068,20 @@ pub fn guard(um: &UserModel, op: &Op, profile: Profile) -> Option<&'static str> 
         }
         Op::NameUpdate { .. } if model.get_locale() != "en" => {
             return Some("name-update-in-non-en-locale");
+        }
+        Op::NameUpdate { name, scope, new_name, new_scope, .. }
+            if {
+                // listed finding: renaming a defined name cannot be undone exactly when the name
+                // (old or new spelling) also exists in another scope, or when name and scope change
+                // together: formulas are re-bound by spelling
+                let lname = name.to_lowercase();
+                let lnew = new_name.to_lowercase();
+                let count = |n: &str| model.workbook.defined_names.iter().filter(|d| d.name.to_lowercase() == n).count();
+                let renames = lname != lnew;
+                (renames && (count(&lname) > 1 || count(&lnew) > 0)) || (renames && scope != new_scope) || (!renames && scope != new_scope && count(&lname) > 1)
+            } =>
+        {
+            return Some("name-update-with-shadowing-or-rescoping");
         }
         Op::NameNew { formula, .. } | Op::NameUpdate { formula, .. } => {
             match formula.split_once('!') {
